@@ -36,6 +36,10 @@ def attribute(tag, run, sibling_clean):
         return ['C07']
     if tag.startswith('SPEC.'):
         return ['SPEC']
+    if tag == 'err.stoplayer':
+        # the layer reported next to a lax stop error: "records the fault on the layer where it occurred" (C05) and
+        # "names the layer that actually failed" (C07)
+        return ['C05', 'C07']
     # verdict, layers.*, layer.*, pay.*, err.spurious, err.missing, err.stoplayer: observation vs reference
     if fam == 'struct':
         # the struct family is judged against the slice family (C04); a disagreement with the reference
